@@ -162,7 +162,7 @@ Ctor(st0, bp, s) ==
               IN SetVar(st2, s, "EXP_AfterTax", DVar(<< s, "LAG_AfterTax" >>))
          [] k = "Capitalists" ->
               SetVar(HouseholdCore(st, bp, s), s, "DIV", DEmpty)
-         [] k = "FixedMarginBusiness" ->
+         [] k \in {"FixedMarginBusiness", "FixedMarginBusinessSub"} ->
               LET st1 == SetVar(st, s, "SUP_" \o d.good, DEmpty)
                   supname == IF AsFound_LiteralSupGood THEN "SUP_GOOD" ELSE "SUP_" \o d.good
                   st2 == SetVar(st1, s, "PROF",
@@ -422,7 +422,7 @@ FirstWithDIV(st, bp, decl, s) ==
 DividendRecipient(st, bp, decl, s) ==
     IF AsFound_DividendsPerPayer THEN FirstWithDIV(st, bp, decl, s)
     ELSE LET cs == SectorsOfCountry(bp, decl, CountryOf(bp, s))
-             idx == { i \in 1..Len(cs) : cs[i] # s /\ KindOf(bp, cs[i]) # "FixedMarginBusiness" /\ HasVar(st, cs[i], "DIV") }
+             idx == { i \in 1..Len(cs) : cs[i] # s /\ KindOf(bp, cs[i]) \notin {"FixedMarginBusiness", "FixedMarginBusinessSub"} /\ HasVar(st, cs[i], "DIV") }
          IN IF idx = {} THEN 0 ELSE cs[Min(idx)]
 
 GenBusiness(st, bp, decl, s) ==
@@ -485,7 +485,7 @@ Gen(st, bp, decl, s) ==
               [] k = "TaxFlow" -> GenTaxFlow(st, bp, decl, s)
               [] k = "MoneyMarket" -> GenMoneyMarket(st, bp, decl, s)
               [] k = "DepositMarket" -> GenDepositMarket(st, bp, decl, s)
-              [] k = "FixedMarginBusiness" -> GenBusiness(st, bp, decl, s)
+              [] k \in {"FixedMarginBusiness", "FixedMarginBusinessSub"} -> GenBusiness(st, bp, decl, s)
               [] k = "FixedMarginBusinessMultiOutput" -> GenMultiOutput(st, bp, decl, s)
               [] k = "CentralBank" -> GenCentralBank(st, bp, s)
               [] k = "GoldStandardGovernment" -> GenGoldGovernment(st, bp, s)
